@@ -530,7 +530,7 @@ pub fn step(ex: &mut Exec, st: &mut L1State, op: &str, toks: &[&str]) -> Option<
             let base = fx.records.clone();
             let base_epoch = st.fx_roots.len() as u64 - 1;
             let roots = st.fx_roots.clone();
-            let max_runs = if st.thorough { 20_000 } else { 1_500 };
+            let max_runs = if st.thorough { 6_000 } else { 1_500 };
             let (runs, violations) = with_cfg!(cfg.as_str(), TC => {
                 let mut stack: Vec<Vec<usize>> = vec![vec![]];
                 let mut seen = std::collections::HashSet::new();
@@ -665,7 +665,7 @@ pub fn step(ex: &mut Exec, st: &mut L1State, op: &str, toks: &[&str]) -> Option<
             let base = fx.records.clone();
             let base_epoch = st.fx_roots.len() as u64 - 1;
             let roots = st.fx_roots.clone();
-            let max_runs = if st.thorough { 20_000 } else if bound >= 3 { 2_500 } else if flusher { 1_200 } else { 400 };
+            let max_runs = if st.thorough { 5_000 } else if bound >= 3 { 2_500 } else if flusher { 1_200 } else { 400 };
             let daemon = reads.len() + 1;
             let (runs, violations, signalled, traces) = with_cfg!(cfg.as_str(), TC => {
                 let mut stack: Vec<Vec<usize>> = vec![vec![]];
@@ -747,7 +747,7 @@ pub fn step(ex: &mut Exec, st: &mut L1State, op: &str, toks: &[&str]) -> Option<
             let cache = fx.cache.clone();
             let base = fx.records.clone();
             let base_epoch = st.fx_roots.len() as u64 - 1;
-            let max_runs = if st.thorough { 20_000 } else { 1_500 };
+            let max_runs = if st.thorough { 6_000 } else { 1_500 };
             let (runs, violations, traces) = with_cfg!(cfg.as_str(), TC => {
                 let mut stack: Vec<Vec<usize>> = vec![vec![]];
                 let mut seen = std::collections::HashSet::new();
